@@ -158,3 +158,20 @@ Print Assumptions C08_update_per_address_limit_all_families.
 Print Assumptions C08_update_per_address_limit_rule_is_vending_handler.
 Print Assumptions C08_wiring.
 Print Assumptions C08_world_fee_bounds.
+
+(* ---- open editions: the URL the minter validates at creation is the token_uri in the
+   off-chain metadata mode and the image of the extension in the on-chain metadata mode
+   (`r_uri_ok`); nft data that do not fit the mode fail NftData::validate (`r_nft_ok`).
+   Either way nothing is created, whatever else the request says ---- *)
+From LP Require Import MinterOpenMetaProofs.
+
+Theorem C08_open_bad_url_rejected : forall self p now sender funds r nm,
+  r_uri_ok r = false -> create_minter FOpen self p now sender funds r nm = Err.
+Proof. exact create_open_bad_url. Qed.
+
+Theorem C08_open_bad_nft_data_rejected : forall self p now sender funds r nm,
+  r_nft_ok r = false -> create_minter FOpen self p now sender funds r nm = Err.
+Proof. exact create_open_bad_nft_data. Qed.
+
+Print Assumptions C08_open_bad_url_rejected.
+Print Assumptions C08_open_bad_nft_data_rejected.
